@@ -17,6 +17,7 @@ def make(pid, rule=None, trusted_extra=()):
         out = []
         if pid in ("C01", "C02", "C03", "C04", "C05", "C06", "C10", "C14", "C15"):
             out += generic.oracle_no_sharing(ctx)
+            out += generic.oracle_input_forms(ctx)
         for m in families.MODULES + [generic]:
             f = getattr(m, "oracles_" + pid, None)
             if f is not None:
